@@ -7,6 +7,8 @@ lanes at byte offset 8*idx; hence decode(encode(x)) = x and encode(decode(b)) = 
 values, because lanes are exact; (R17.c) the instruction builder's into_bytes has the same lanes and
 its opcode byte, for every constructor and every combination of its enum arguments, is the opcode
 the assembler uses for that instruction."""
+import re
+
 import isa
 import symex
 import terms as T
@@ -99,6 +101,19 @@ def run(rep, tier):
     re_ = rep.rule("R17.e", "ebpf::to_insn_vec returns get_insn(prog, i) for every i in 0..len/8, in order, and nothing else", floor=1)
     oke, founde = _decode_all(cx)
     rep.ob(re_, "to_insn_vec", oke, "loop of ebpf::to_insn_vec", expected="counter from 0 while i*8 < len (or i < len/8); each iteration pushes get_insn(prog, i) and nothing is skipped", found=founde)
+    rf_ = rep.rule("R17.f", "every instruction type of the builder pushes exactly `self.into_bytes()` (the shared encoding), never a privately built instruction", floor=7)
+    pushes = sorted(pth for pth in F.fns if re.match(r"^insn_builder::\w+::push$", pth) and F.fns[pth].get("thir"))
+    for pth in pushes:
+        body = F.fns[pth]["thir"]["body"]
+        calls = [(callee_path(n) or "", n) for n in walk(body) if n.get("k") == "call"]
+        ib = [n for c, n in calls if c.endswith("IntoBytes>::into_bytes") or c.endswith("::into_bytes")]
+        ib_self = [n for n in ib if any(x.get("k") in ("var", "upvar") and x.get("name") == "self" for x in walk(n["args"][0]))]
+        private = [c for c, _n in calls if c.endswith("Insn::to_array") or c.endswith("Insn::to_vec")] + \
+                  [n.get("path") for n in walk(body) if n.get("k") == "adt" and str(n.get("path", "")).endswith("ebpf::Insn")]
+        sinks = [c for c, _n in calls if c.endswith("Vec<T, A>::append") or c.endswith("extend_from_slice") or c.endswith("::extend")]
+        rep.ob(rf_, pth, len(ib_self) == 1 and not private and len(sinks) == 1, "%s" % pth,
+               expected="one into_bytes() of self appended to the program, no Insn built on the side",
+               found={"into_bytes(self)": len(ib_self), "private encodings": private, "appends": len(sinks)})
     rep.trust("rustc front end / typed THIR", "byteorder::LittleEndian::read_i16/read_i32 (modelled as little-endian byte lanes)")
     rep.assume("register numbers 0-15 (4-bit fields)")
 
